@@ -82,10 +82,15 @@ impl Bucket {
         // See if any lower priority nodes are present in the table, we cant do
         // nodes that have equal status because we have to prefer longer lasting
         // nodes in the case of a good status which helps with stability.
+        // Replace the node with the lowest status (the first such one), so that a live node is
+        // never evicted while the bucket still has a bad (or unused) slot.
         let replace_index = self
             .nodes
             .iter()
-            .position(|node| node.status() < new_node_status);
+            .enumerate()
+            .filter(|(_, node)| node.status() < new_node_status)
+            .min_by_key(|(_, node)| node.status())
+            .map(|(index, _)| index);
         if let Some(index) = replace_index {
             self.nodes[index] = new_node;
 
